@@ -19,7 +19,18 @@
 
    The table is deliberately thin (no history): TLC enumerates the cells
 
-        entry point x format x logger kind x inlining x way the skip was given x skip x depth
+        entry point x format x logger kind x inlining x way the skip was given x skip x depth x site
+
+   site = "go": the frames of the wrapper chain sit in an ordinary source file of the program.
+   Any other value names a chain whose functions sit behind `//line` directives (generated code,
+   Windows paths): the FILE NAME of every frame of that chain carries a backslash, a quote, a
+   blank, a control character, non-ASCII text ... (LineSites, a constant: the sites the worker
+   has; "plain..." = an ordinary POSIX path behind a directive, the control).  The property
+   speaks of "the file, line and function reported in a record": what the source file of the
+   issuing statement is called must not matter - the reported triple is that of user frame
+   `skip` whatever characters the name has (SiteIndependent), in every format.  Line cells exist
+   for one entry point per calling convention (LineEPNames), //go:noinline chains, skip 0..2 given
+   by SetSkip / WithSkip / not at all, chains of skip..2 wrappers.
 
    one cell per state (Init picks an entry point and logger kind, Next any cell of that pair),
    evaluates the invariants below in every cell and exports the table (Export); the Go worker
@@ -46,8 +57,9 @@
                            statement) for every entry point / format / kind / inlining
      SkipMovesExactlyN     sentence 2: skip n moves the attribution exactly n frames up from
                            where skip 0 points, never into or across library frames
-     FormatIndependent, KindIndependent, InlineIndependent, ViaIndependent
-                           the attribution depends on (entry point, skip) only
+     FormatIndependent, KindIndependent, InlineIndependent, ViaIndependent, SiteIndependent
+                           the attribution depends on (entry point, skip) only - not on the
+                           format, ..., nor on what the source file of the frames is called
      WithinChain           the attributed frame exists and is one of site/wrap_1..wrap_d
 
    NAMED DEVIATIONS (what the pinned library does differently; AllDevs).  The invariants are
@@ -61,7 +73,8 @@ EXTENDS Integers, Sequences, FiniteSets, SequencesExt, TLC, Json
 CONSTANTS MaxDepthInl,   \* deepest wrapper chain of inlinable wrappers
           MaxDepthNo,    \* deepest wrapper chain of //go:noinline wrappers
           AllOthers,     \* TRUE: every previous/parent skip value # skip; FALSE: one per skip
-          Devs           \* enabled deviations
+          Devs,          \* enabled deviations
+          LineSites      \* wrapper chains behind //line directives (names of the worker's sites)
 
 VARIABLES cell,          \* the cell under consideration
           phase          \* "seed": an (entry point, kind) pair was picked; "cell": a full cell
@@ -169,16 +182,40 @@ ShapesOf(inl) == IF inl THEN ShapesInl ELSE ShapesNo
 EPKinds == UNION {{<<e, k>> : k \in KindsOf(e.fam)} : e \in EPs}
 ShapesAll == {<<TRUE, sh>> : sh \in ShapesInl} \cup {<<FALSE, sh>> : sh \in ShapesNo}
 
+(* call sites behind //line directives: one entry point per calling convention of every family
+   (variadic any / context first / level + attrs / printf / package level / log/slog front end /
+   std log front end), loggers that are roots and (package level: the default) roots, noinline
+   chains, skip 0..MaxLineSkip given in the three basic ways, chains of skip..LineDepth wrappers *)
+LineEPNames == {"Info", "Println", "InfoContext", "LogAttrs", "Log", "Infof", "slog.Warn", "slog.InfoContext",
+                "logslog.Info", "logslog.LogAttrs", "stdlog.Print", "stdlog.Output"}
+LineKinds(f) == IF f \in {"pkgverb", "pkgctx"} THEN {"defroot"} ELSE {"root", "defroot"}
+MaxLineSkip == 2
+LineDepth == 2                    \* skip <= depth <= LineDepth: a wrapper reports its own caller, with and without more wrappers above
+LineShapes == {sh \in ShapesNo : sh[1] \in {"none", "Set", "With"} /\ sh[2] <= MaxLineSkip /\ sh[4] <= LineDepth}
+LineEPKinds == {ek \in EPKinds : ek[1].name \in LineEPNames /\ ek[2] \in LineKinds(ek[1].fam)}
+
 (* the table; an operator with a parameter because TLC evaluates every parameterless constant
    definition eagerly, once per worker, and this one is large *)
-CellsOver(eks) == {[ep |-> ek[1].name, fam |-> ek[1].fam, fmt |-> f, kind |-> ek[2], inl |-> ns[1],
-                    via |-> ns[2][1], skip |-> ns[2][2], other |-> ns[2][3], depth |-> ns[2][4]] :
-                        ek \in eks, f \in Formats, ns \in ShapesAll}
+GoCellsOver(eks) == {[ep |-> ek[1].name, fam |-> ek[1].fam, fmt |-> f, kind |-> ek[2], inl |-> ns[1],
+                      via |-> ns[2][1], skip |-> ns[2][2], other |-> ns[2][3], depth |-> ns[2][4], site |-> "go"] :
+                          ek \in eks, f \in Formats, ns \in ShapesAll}
+LineCellsOver(eks) == {[ep |-> ek[1].name, fam |-> ek[1].fam, fmt |-> f, kind |-> ek[2], inl |-> FALSE,
+                        via |-> sh[1], skip |-> sh[2], other |-> sh[3], depth |-> sh[4], site |-> s] :
+                            ek \in eks \cap LineEPKinds, f \in Formats, sh \in LineShapes, s \in LineSites}
+(* (the two halves are never united: TLC enumerates a union by testing every element of the second
+   set for membership in the first) *)
+CellsOver(eks) == GoCellsOver(eks)
+NCells == Cardinality(EPKinds) * Cardinality(Formats) * Cardinality(ShapesAll)
+          + Cardinality(LineEPKinds) * Cardinality(Formats) * Cardinality(LineShapes) * Cardinality(LineSites)
 
 IsCell(c) ==
     /\ [name |-> c.ep, fam |-> c.fam] \in EPs
     /\ c.fmt \in Formats /\ c.kind \in KindsOf(c.fam) /\ c.inl \in BOOLEAN
     /\ <<c.via, c.skip, c.other, c.depth>> \in ShapesOf(c.inl)
+    /\ \/ c.site = "go"
+       \/ /\ c.site \in LineSites /\ ~c.inl
+          /\ <<[name |-> c.ep, fam |-> c.fam], c.kind>> \in LineEPKinds
+          /\ <<c.via, c.skip, c.other, c.depth>> \in LineShapes
 
 -----------------------------------------------------------------------------
 (* The stack and the attributed frame *)
@@ -230,6 +267,9 @@ InlineIndependent == (cell.depth = cell.skip /\ (cell.inl \/ cell.skip > MaxDept
 ViaIndependent == cell.via = "Set" =>
     \A v \in Vias, o \in OtherChoices(cell.skip) \cup {cell.skip} :
         LET c == [cell EXCEPT !.via = v, !.other = o] IN IsCell(c) => Attributed(c) = Attributed(cell)
+(* what the source file of the chain's frames is called does not matter *)
+SiteIndependent == cell.site = "go" =>
+    \A s \in LineSites : LET c == [cell EXCEPT !.site = s] IN IsCell(c) => Attributed(c) = Attributed(cell)
 WithinChain == Attributed(cell).k = "user" /\ Attributed(cell).i <= cell.depth
 
 (* Enumeration: an initial state fixes (entry point, logger kind); its successors are all cells of
@@ -240,17 +280,20 @@ InitFams(F) == /\ phase = "seed"
 Init == InitFams(Families)
 InitBridge == InitFams({"bridge"})       \* witness runs for the bridge deviation
 Next == /\ phase = "seed" /\ phase' = "cell"
-        /\ cell' \in CellsFor([name |-> cell.ep, fam |-> cell.fam], cell.kind)
+        /\ \/ cell' \in GoCellsOver({<<[name |-> cell.ep, fam |-> cell.fam], cell.kind>>})
+           \/ cell' \in LineCellsOver({<<[name |-> cell.ep, fam |-> cell.fam], cell.kind>>})
 Spec == Init /\ [][Next]_<<cell, phase>>
 
 -----------------------------------------------------------------------------
 (* Export of the table: one JSON object per cell with the frame the property demands *)
 
 Row(c) == [ep |-> c.ep, fam |-> c.fam, fmt |-> c.fmt, kind |-> c.kind, inl |-> c.inl, via |-> c.via,
-           skip |-> c.skip, other |-> c.other, depth |-> c.depth, want |-> Want(c)]
+           skip |-> c.skip, other |-> c.other, depth |-> c.depth, site |-> c.site, want |-> Want(c)]
 
 Export(file) ==
-          /\ ndJsonSerialize(file, SetToSeq({Row(c) : c \in CellsOver(EPKinds)}))
+          /\ ndJsonSerialize(file, SetToSeq({Row(c) : c \in GoCellsOver(EPKinds)})
+                                    \o SetToSeq({Row(c) : c \in LineCellsOver(EPKinds)}))
           /\ PrintT("@@eps " \o ToJson(SetToSeq({e.name : e \in EPs})))
-          /\ PrintT("@@ncells " \o ToJson(Cardinality(EPKinds) * Cardinality(Formats) * Cardinality(ShapesAll)))
+          /\ PrintT("@@lineeps " \o ToJson(SetToSeq(LineEPNames)))
+          /\ PrintT("@@ncells " \o ToJson(NCells))
 =============================================================================
